@@ -264,13 +264,15 @@ def check_sep(mixture, part, match_extra=None):
     return ('sep', after.cls, after.phases_present(), _bucket(after.T))
 
 
-def check_set(s, attr, Tstar, match_extra=None):
-    """assign the value a fresh twin has at T* to s.<attr>; attr in H, h, S"""
+def check_set(s, attr, Tstar, match_extra=None, target=None, prep='fresh'):
+    """assign the value a fresh twin has at T* to s.<attr>; attr in H, h, S.  With `target` given (a value READ from this very stream
+    while it was at T*, before its state was moved by something other than the setter) that value is assigned instead."""
     b = Snap(s)
     kind = ('mg' if b.phases_present() == ('g',) else 'm') if b.cls == 'MultiStream' else next(iter(b.flows))
-    m = dict(attr=attr, kind=kind)
+    m = dict(attr=attr, kind=kind, prep=prep)
     F = b.total
-    if attr == 'H': target = H_ref(b, Tstar)
+    if target is not None: pass
+    elif attr == 'H': target = H_ref(b, Tstar)
     elif attr == 'h': target = H_ref(b, Tstar) / F
     else: target = S_twin(b, Tstar)
     phases0 = b.phases_present()
@@ -328,6 +330,29 @@ def check_set(s, attr, Tstar, match_extra=None):
         raise Violation('idempotence', f'assigning {attr} the value it already has moved T from {T1!r} to {float(s.T)!r}', match=m, residual=abs(float(s.T) - T1), detail=det)
     return ('set', attr, kind, bool(changed), abs(b.T - Tstar) > 1e-9)
 
+
+PREPS = ['fresh', 'read-moveT', 'noread-moveT', 'read-moveTP', 'read-scale-moveT']
+
+def prepared(kind, T0, Tstar, P, comp, attr, prep):
+    """stream that sits at T0 when the setter is called, and the target to assign.
+    fresh            built at T0; target = value of a twin at T*                                   (no history)
+    read-moveT       built at T*, s.<attr> READ (fills the memo), then s.T = T0 directly; target = the value read
+    noread-moveT     built at T*, s.T = T0 directly without any read; target = value of a twin at T*
+    read-moveTP      as read-moveT, with the pressure moved away and back around the temperature change
+    read-scale-moveT as read-moveT, value read, flows doubled then halved again (exact in binary), T moved"""
+    if prep == 'fresh':
+        return mk_template(kind, T0, P, comp), None
+    s = mk_template(kind, Tstar, P, comp)
+    v = None
+    if prep.startswith('read'):
+        v = float(getattr(s, attr))
+    if prep == 'read-moveTP':
+        s.P = 2. * P; s.T = T0; s.P = P
+    elif prep == 'read-scale-moveT':
+        s.scale(2.); s.T = T0; s.scale(0.5)
+    else:
+        s.T = T0
+    return s, v
 
 # ---- enumeration helpers -----------------------------------------------------------------------------------------------------------------
 
@@ -456,7 +481,7 @@ class MixGrid(System):
 class SepGrid(System):
     """config = (template kind of the mixture, P index, comp index, part pattern); actions = (T_m index, part kind, T_part index)"""
     name = 'c02.sepout'
-    PARTS = [(0.5, 0.5, 0.5), (1., 0., 0.25), (0.25, 1., 0.), (0.25, 0.25, 1.)]
+    PARTS = [(0.5, 0.5, 0.5), (1., 0., 0.25), (0.25, 1., 0.), (0.25, 0.25, 1.), (0.0625, 0.0625, 0.0625)]
     TL = [280., 298.15, 330., 345.]
     TG = [380., 420., 480.]
 
@@ -485,6 +510,7 @@ class SepGrid(System):
                 Tp = self.TL if pk == 'l' else self.TG
                 for ip, _ in enumerate(Tp):
                     acts.append((im, pk, ip))
+                acts.append((im, pk, 'same'))        # the part sits at EXACTLY the mixture's T and P (in the same or in the other phase)
         return acts
 
     def canon(self, st): return (st['config'], st.get('last'))
@@ -499,7 +525,7 @@ class SepGrid(System):
             st['done'] = True
             raise Rejected('precondition: part or remainder empty', cut=True)
         Tm = (self.TL if kind in ('l', 'm') else self.TG)[im]
-        Tp = (self.TL if pk == 'l' else self.TG)[ip]
+        Tp = Tm if ip == 'same' else (self.TL if pk == 'l' else self.TG)[ip]
         P = PRESSURES[p]
         if kind == 'm':
             mix = mk_multi(Tm, P, comp, comp)          # comp in each phase; part is taken from the phase pk
@@ -514,6 +540,7 @@ class SepGrid(System):
     def nontrivial(self, st, a, obs):
         kind = st['config'][0]
         Tm = (self.TL if kind in ('l', 'm') else self.TG)[a[0]]
+        if a[2] == 'same': return obs[0] == 'sep' and a[1] != kind        # same T, P: non-trivial when the phases differ (latent heat)
         Tp = (self.TL if a[1] == 'l' else self.TG)[a[2]]
         return obs[0] == 'sep' and Tm != Tp
 
@@ -532,26 +559,33 @@ class SetterGrid(System):
         Ps = [1, 3] if tier == 'quick' else range(len(PRESSURES))
         if tier == 'quick': comps = sorted(set(comps) | {seed % len(COMPS)})
         cf = [(k, p, c, at) for k in ('l', 'g', 'm', 'mg') for p in Ps for c in comps for at in ('H', 'h', 'S')]
+        self._sub = [1, 4, 6] if tier == 'quick' else None         # prepared sequences: quick on {280, 345, 420}^2, thorough on the full grid
         k = seed % len(cf)
         return cf[k:] + cf[:k]
 
+    _sub = [1, 4, 6]
     def build(self, config): return dict(config=config, done=False)
     def actions(self, st):
         if st['done']: return []
-        return [(i, j) for i in range(len(TGRID)) for j in range(len(TGRID))]
+        acts = [(i, j, 0) for i in range(len(TGRID)) for j in range(len(TGRID))]
+        # read / mutate / assign sequences: the state is moved by something other than the setter before the assignment
+        sub = self._sub if self._sub is not None else range(len(TGRID))
+        acts += [(i, j, k) for k in range(1, len(PREPS)) for i in sub for j in sub]
+        return acts
     def canon(self, st): return (st['config'], st.get('last'))
 
     def step(self, st, a):
         kind, p, c, attr = st['config']
-        s = mk_template(kind, TGRID[a[0]], PRESSURES[p], COMPS[c])
-        obs = check_set(s, attr, TGRID[a[1]])
+        prep = PREPS[a[2]] if len(a) > 2 else 'fresh'
+        s, v = prepared(kind, TGRID[a[0]], TGRID[a[1]], PRESSURES[p], COMPS[c], attr, prep)
+        obs = check_set(s, attr, TGRID[a[1]], target=v, prep=prep)
         if not free_energy_args_clean():
             raise Violation('scratch-left', 'mixture._free_energy_args not empty after the setter')
         st['done'] = True; st['last'] = (a, obs)
         return obs
 
     def nontrivial(self, st, a, obs): return a[0] != a[1]
-    def outcome(self, st, a, obs): return repr((obs, st['config'][0]))
+    def outcome(self, st, a, obs): return repr((obs, st['config'][0], a[2] if len(a) > 2 else 0))
 
 
 # =========================================================================================================================================
@@ -610,10 +644,14 @@ class History(System):
                     for Ts in (300., 400.):
                         acts.append(('set', r, at, Ts))
                 acts.append(('setT', r, 350.))
+                if 250. <= sn[r].T <= 500.:          # the value to restore must belong to a temperature inside the stated range
+                    for at in ('H', 'S'):
+                        acts.append(('restore', r, at, 330.))
                 for k in (0.5, 2.):
                     acts.append(('scale', r, k))
             elif sn[r].total > 0:
                 acts.append(('set', r, 'H', 400.)); acts.append(('set', r, 'S', 300.)); acts.append(('setT', r, 350.))
+                if 250. <= sn[r].T <= 500.: acts.append(('restore', r, 'H', 330.))
         return acts
 
     def step(self, st, a):
@@ -628,6 +666,13 @@ class History(System):
         elif op == 'set':
             _, r, at, Ts = a
             obs = check_set(S[r], at, Ts)
+        elif op == 'restore':
+            # read the value, move the temperature directly (no read in between), assign the value read: T must come back
+            _, r, at, T2 = a
+            Tback = float(S[r].T)
+            v = float(getattr(S[r], at))
+            S[r].T = T2 if abs(T2 - Tback) > 1. else T2 + 25.
+            obs = check_set(S[r], at, Tback, target=v, prep='read-moveT')
         elif op == 'setT':
             _, r, T = a
             S[r].T = T
@@ -658,7 +703,7 @@ class History(System):
 
     def nontrivial(self, st, a, obs):
         if a[0] == 'mix': return obs[1] != 'empty' and obs[4]
-        if a[0] == 'set': return obs[4]
+        if a[0] in ('set', 'restore'): return obs[4]
         return a[0] == 'sep'
 
     def outcome(self, st, a, obs):
